@@ -622,6 +622,28 @@ def objEq : Obj → Obj → Bool
   | _, _ => false
 
 
+/-! ## type-of
+
+  slip's `type-of` of an integer is a function of its value: the reader and the arithmetic normalise
+  (`Fixnum` exactly when the value fits 64 bits, else `*Bignum`), so an integer read back equal has
+  the same type. -/
+
+inductive TypeOf where
+  | null | t | fixnum | bignum | ratio | string | character | symbol | cons | vector | array
+deriving DecidableEq, Repr
+
+def typeOf : Obj → TypeOf
+  | .nil => .null
+  | .t => .t
+  | .int n => if -9223372036854775808 ≤ n ∧ n ≤ 9223372036854775807 then .fixnum else .bignum
+  | .ratio _ _ => .ratio
+  | .str _ => .string
+  | .chr _ => .character
+  | .sym _ => .symbol
+  | .cons _ _ => .cons
+  | .vec _ => .vector
+  | .arr _ _ => .array
+
 /-! ## what the round-trip theorem is about -/
 
 /-- what the reader gives back for a printed object: symbol names in the case they were printed
